@@ -57,6 +57,9 @@ def compute_embedding_grad_sample(
             1, index, backprops.reshape(batch_size, -1, layer.embedding_dim)
         )
         torch.backends.cudnn.deterministic = saved
+        if layer.padding_idx is not None:
+            # nn.Embedding never updates the padding row: its gradient is zero
+            grad_sample[:, layer.padding_idx, :] = 0
         ret[layer.weight] = grad_sample
     return ret
 
